@@ -338,7 +338,7 @@ func genStatValue(t *rapid.T, center float64, constant bool) float64 {
 	}
 }
 
-func genStatFile(t *rapid.T, scale float64, constant bool, baseOff int, many bool) statFile {
+func genStatFile(t *rapid.T, scale float64, constant bool, baseOff int, many, collide bool) statFile {
 	var sb strings.Builder
 	var f statFile
 	if vcase.OneIn(t, 4, "label") {
@@ -359,10 +359,19 @@ func genStatFile(t *rapid.T, scale float64, constant bool, baseOff int, many boo
 	for i := 0; i < nbases; i++ {
 		bases = append(bases, stBases[(baseOff+i)%len(stBases)])
 	}
-	if vcase.OneIn(t, 6, "collide") && nbases >= 2 {
+	if vcase.OneIn(t, 6, "collidebases") && nbases >= 2 {
 		bases[0], bases[1] = "Ab", "A" // with sizes "c"/"bc": tuples whose concatenations coincide
 	}
 	withSize := rapid.Bool().Draw(t, "withsize")
+	if collide {
+		// (.name=Ab,/size=c) and (.name=A,/size=bc) concatenate to the same text; their
+		// result lines interleave below
+		if nbases < 2 {
+			bases = append(bases, "")
+		}
+		bases[0], bases[1] = "Ab", "A"
+		withSize = true
+	}
 	withKind := vcase.OneIn(t, 3, "withkind")
 	proc := rapid.SampledFrom(stProcs).Draw(t, "proc")
 	units := []string{"ns/op"}
@@ -395,6 +404,9 @@ func genStatFile(t *rapid.T, scale float64, constant bool, baseOff int, many boo
 				mult := float64(bi + 1)
 				if withSize {
 					sz := rapid.SampledFrom(stSizes).Draw(t, "size")
+					if collide && bi < 2 && sz != "c" && sz != "bc" {
+						sz = []string{"c", "bc"}[bi]
+					}
 					name += "/size=" + sz
 					mult *= float64(len(sz))
 				}
@@ -466,6 +478,7 @@ func genStatCase(t *rapid.T) statCase {
 	constant := vcase.OneIn(t, 8, "constant")
 	disjoint := vcase.OneIn(t, 10, "disjoint") // files without any benchmark in common
 	many := vcase.OneIn(t, 12, "manyrows")     // ten or more rows (and, with exact units, as many distinct warnings)
+	collide := vcase.OneIn(t, 10, "collide")   // distinct two-field row keys whose field values concatenate alike
 	for i := 0; i < nfiles; i++ {
 		scale := 1 + float64(i)*0.06
 		if constant {
@@ -475,7 +488,7 @@ func genStatCase(t *rapid.T) statCase {
 		if disjoint && i > 0 {
 			off = 4 * i
 		}
-		c.Files = append(c.Files, genStatFile(t, scale, constant, off, many))
+		c.Files = append(c.Files, genStatFile(t, scale, constant, off, many, collide))
 	}
 	for i := range c.Files {
 		c.Paths = append(c.Paths, i)
@@ -488,6 +501,9 @@ func genStatCase(t *rapid.T) statCase {
 	}
 	if vcase.OneIn(t, 3, "customrow") {
 		c.Row = genStatExpr(t, []string{".fullname", ".name", "/size", "/kind", "pkg"}, "row", 2)
+	}
+	if collide && !vcase.OneIn(t, 4, "collidefree") {
+		c.Row = refproj.Expr{{Key: ".name"}, {Key: "/size"}}
 	}
 	if vcase.OneIn(t, 3, "customtable") {
 		c.Table = genStatExpr(t, []string{".config", "goos", "pkg", "goarch", "note"}, "table", 2)
